@@ -162,6 +162,25 @@ CHECKS = {
             '(suspension point x event) matrix is reported.',
             'as C08.',
             'DESIGN.md §3 C09'),
+    'C11': ('exploration',
+            'static generated chains with block sizes around the cache threshold + whole-system '
+            'histories with proof requests placed across block backups; oracle = own merkle fold '
+            'against the daemon\'s headers / own root of block hashes',
+            'All proof kinds are requested through real sessions for generated block sizes (every '
+            '(height, cp) pair per chain) and, dynamically, inside reorg windows with late header '
+            'reads; window replies must verify against a chain the daemon had, quiesce panels '
+            'against the current chain. Sampled.',
+            'FakeDaemon models bitcoind; padding txs are generation-like.',
+            'DESIGN.md §3 C11'),
+    'C17': ('exploration',
+            'one heavy generated fixture (2 100 blocks, histories straddling the derived limits) x '
+            'generated MAX_SEND, header triples and script subsets through the whole real server; '
+            'oracle = closed-form limits and the fixture\'s true histories / statuses',
+            'Header ranges around the 2016 cap and the chain end and histories just below / at / '
+            'above limit = max(350000, MAX_SEND)//99 are requested on every path (first call, cache, '
+            'subscribe, notification after one more block). Sampled over a fixed fixture.',
+            'fixture uses generation-like transactions; null status on drop not judged.',
+            'DESIGN.md §3 C17'),
 }
 
 NOT_BUILT = {}
